@@ -182,6 +182,32 @@ class _DirtyWritten(Client):
         return (state,)
 
 
+class _DirtyMut(Client):
+    """state = (table edited on this path, last constant written to the dirty flag)"""
+    TABLE_MUT = {"insert", "append", "pop", "remove", "extend", "clear", "reverse", "sort"}
+
+    def __init__(self, fld, lines_f):
+        self.fld, self.lines = fld, lines_f
+
+    def should_inline(self, func, call, ctx):
+        return True
+
+    def event(self, kind, node, state, ctx):
+        edited, dirty = state
+        sn = ctx.func.self_name
+        if kind == "store" and isinstance(node, ast.Attribute) and node.attr == self.fld and ctx.scope.is_self(node.value):
+            av = assigned_value(node)
+            v = const_value(av, None) if av is not None else None
+            return ((edited, v if isinstance(v, bool) else dirty),)
+        if kind in ("store", "del") and isinstance(node, ast.Subscript) and dotted(node.value) == (sn, self.lines) \
+                and ctx.scope.obj == ("self",):
+            return ((True, dirty),)
+        if kind == "call" and isinstance(node, ast.Call) and isinstance(node.func, ast.Attribute) and node.func.attr in self.TABLE_MUT \
+                and dotted(node.func.value) == (sn, self.lines) and ctx.scope.obj == ("self",):
+            return ((True, dirty),)
+        return (state,)
+
+
 def r3_dirty(prog, rep: Report, fam: Family, mut: Cls, rec: Cls):
     rep.rule("C12.R3", "dirty flag: every mutator writes dirty = True on every normal path; the plain base initialises it False, "
              "only the record base initialises it True; nothing resets it", floor=5)
@@ -220,6 +246,32 @@ def r3_dirty(prog, rep: Report, fam: Family, mut: Cls, rec: Cls):
         rep.check("C12.R3", (c.relpath, f"{c.short}.__init__", c.node.lineno), "initially-clean", finals == {False},
                   f"{c.short}() starts with {fld} = False", f"{c.short}() starts with {fld} in {sorted(map(str, finals))}",
                   scenario="a freshly opened, unmodified plain line file reports dirty=True")
+    # every public operation (mixin methods included, helpers inlined) that edits the table must leave the flag True
+    lines_f = "_lines"
+    try:
+        from .c11 import _lines_field
+        lines_f = _lines_field(prog, fam)
+    except Exception:
+        pass
+    seen_ep = set()
+    for c in [x for x in fam.line_classes if mut in (x.mro or [])]:
+        for f in fam.entry_points(c, include_mixins=True):
+            if (f, c in concrete_rec) in seen_ep or f.name in ("open", "close", "save"):
+                continue
+            seen_ep.add((f, c in concrete_rec))
+            client = _DirtyMut(fld, lines_f)
+            it = Interp(prog, client)
+            ex = it.run(f, {(False, None)}, c)
+            finals = ex.normal | ex.ret
+            if not any(s_[0] for s_ in finals):
+                continue
+            rep.fn(f)
+            bad = [s_ for s_ in finals if s_[0] and s_[1] is not True]
+            rep.check("C12.R3", f, f"edit-sets-dirty:{'record' if c in concrete_rec else 'plain'}", not bad,
+                      f"every path of {f.name} that edits the table leaves self.{fld} = True",
+                      f"{f.name} can edit self.{lines_f} and return without self.{fld} = True",
+                      scenario=f"f.{f.name}(...) as the first modification of a plain line file: the content changed but f.dirty is "
+                               f"still False")
     resets = []
     for c in fam.line_classes:
         for k in c.repo_mro():
@@ -238,19 +290,7 @@ def r3_dirty(prog, rep: Report, fam: Family, mut: Cls, rec: Cls):
         rep.ok("C12.R3", (mut.relpath, mut.short, mut.node.lineno), "never-reset", "no method writes a value other than True")
 
 
-def r4_save(prog, rep: Report, fam: Family, mut: Cls, rec: Cls, lines: str):
-    rep.rule("C12.R4", "save writes the current view: save passes the object's own iteration (plain) or an index-aligned walk of "
-             "the table resolving offsets through the raw reader (record) to the writer, which writes each line once with "
-             "end=<line_ending> to the output, opened 'w' only when it is a path", floor=3)
-    sv = prog.method(mut, "save")
-    w = prog.method(mut, "_save_from_iter")
-    rep.fn(sv, w)
-    out, le = sv.params[1], sv.params[2]
-    calls = [c for c in calls_in(sv.node) if isinstance(c.func, ast.Attribute) and c.func.attr == w.name]
-    ok = len(calls) == 1 and [src(a) for a in calls[0].args] == [sv.self_name, out, le] and not calls[0].keywords
-    rep.check("C12.R4", sv, "plain-save", ok, f"_save_from_iter(self, {out}, {le})",
-              "save does not hand the object's own iteration, the output and the line ending to the writer",
-              scenario="save writes another sequence than list(f), or ignores the chosen line ending")
+def record_save_check(prog, rep: Report, rule: str, rec: Cls, w: Func, lines: str):
     rs = prog.method(rec, "save")
     rep.fn(rs)
     calls = [c for c in calls_in(rs.node) if isinstance(c.func, ast.Attribute) and c.func.attr == w.name]
@@ -274,9 +314,25 @@ def r4_save(prog, rep: Report, fam: Family, mut: Cls, rec: Cls, lines: str):
                         and "Record" not in src(raw.func).split(".")[0].replace("RandomLineAccessFile", "")
                     ok = (is_int or is_str) and raw_ok and src(mem) == x
         ok = ok and [src(a) for a in calls[0].args[1:]] == [rs.params[1], rs.params[2]]
-    rep.check("C12.R4", rs, "record-save", ok, "walks the table by index: offsets through the raw line reader, strings as stored", why,
+    rep.check(rule, rs, "record-save", ok, "walks the table by index: offsets through the raw line reader, strings as stored", why,
               scenario="after f.insert(0, r) the saved file pairs line numbers with shifted offsets, or re-serialises records "
                        "through load/save and changes their text")
+
+
+def r4_save(prog, rep: Report, fam: Family, mut: Cls, rec: Cls, lines: str):
+    rep.rule("C12.R4", "save writes the current view: save passes the object's own iteration (plain) or an index-aligned walk of "
+             "the table resolving offsets through the raw reader (record) to the writer, which writes each line once with "
+             "end=<line_ending> to the output, opened 'w' only when it is a path", floor=3)
+    sv = prog.method(mut, "save")
+    w = prog.method(mut, "_save_from_iter")
+    rep.fn(sv, w)
+    out, le = sv.params[1], sv.params[2]
+    calls = [c for c in calls_in(sv.node) if isinstance(c.func, ast.Attribute) and c.func.attr == w.name]
+    ok = len(calls) == 1 and [src(a) for a in calls[0].args] == [sv.self_name, out, le] and not calls[0].keywords
+    rep.check("C12.R4", sv, "plain-save", ok, f"_save_from_iter(self, {out}, {le})",
+              "save does not hand the object's own iteration, the output and the line ending to the writer",
+              scenario="save writes another sequence than list(f), or ignores the chosen line ending")
+    record_save_check(prog, rep, "C12.R4", rec, w, lines)
     # writer
     lines_p, out_p, le_p = w.params[0], w.params[1], w.params[2]
     loops = [n for n in walk_own(w.node) if isinstance(n, ast.For) and src(n.iter) == lines_p]
